@@ -292,6 +292,11 @@ F_C10_step(cfg, pre, post) ==
                     /\ r.n \in DOMAIN cfg.nodes /\ cfg.nodes[r.n].kind = "std"
                  => r.ss = CuOf(pre, r.id).ss /\ r.se = CuOf(pre, r.id).se /\ r.st = CuOf(pre, r.id).st)
 
+\* fault part: a draw that is not a non-negative number (logged as NONE, or negative) never takes effect
+F_C10_fault(cfg, post) ==
+    Chk("C10.invalid-sample-raises", \A a \in DOMAIN post.steps :
+           post.steps[a].k \in {"ia", "svc", "batch", "pat"} => post.steps[a].y # NONE /\ post.steps[a].y >= 0)
+
 F_C10_inv(cfg, S) ==
     Chk("C10.end-is-start-plus-sample", \A j \in DOMAIN S.cu :
            LET c == S.cu[j]
@@ -350,6 +355,23 @@ F_C04_step(cfg, pre, post) ==
           IN r.type \in {"service", "interrupted service"} /\ r.sid > 0 /\ r.n \in 1..NN(pre)
                 /\ IsLive(pre, r.id) /\ CuOf(pre, r.id).loc = r.n /\ CuOf(pre, r.id).srv > 0
              => r.sid = CuOf(pre, r.id).srv /\ r.ss = CuOf(pre, r.id).ss)
+
+\* utilisation (runs without pre-emption, one simulate_until_max_time call): the observer integrates, from the
+\* attach / detach / kill micro-steps alone, the time servers spent attached (ob.busy) and present (ob.tot);
+\* fin = logged report of the code per node: [un, ud] = server_utilisation as an exact fraction (ud = 0: None)
+Dom_C04util(cfg) == cfg.stop = "time" /\ ~HasPriorityPreempt(cfg) /\ ~HasPreemptiveSchedule(cfg) /\ cfg.exact = 0
+                    /\ \A n \in DOMAIN cfg.nodes : cfg.nodes[n].kind \in {"std", "sched"}
+
+F_C04_final(cfg, last, outcome, ob, fin) ==
+    IF ~Dom_C04util(cfg) \/ outcome # "returned" THEN {}
+    ELSE Chk("C04.utilisation-is-attached-over-present-time", \A n \in 1..NN(last) :
+            last.nodes[n].c < INF =>
+               LET T == cfg.T
+                   stillAtt == SelectSeq(ob.att, LAMBDA a : a[1] = n)
+                   busy == ob.busy[n] + SumSeq([a \in DOMAIN stillAtt |-> T - stillAtt[a][3]])
+                   tot == ob.tot[n] + SumSeq([a \in DOMAIN last.nodes[n].srv |-> T - last.nodes[n].srv[a].start])
+               IN IF fin[n].ud = 0 THEN tot = 0 \/ last.nodes[n].c = 0
+                  ELSE 0 <= busy /\ busy <= tot /\ fin[n].un * tot = busy * fin[n].ud)
 
 ----------------------------------------------------------------------------
 (* C12 server schedules and slotted services follow the declared timetable *)
@@ -769,7 +791,8 @@ F_C14_step(cfg, pre, post) ==
 
 \* last = state after the last executed event, outcome as logged
 F_C14_final(cfg, last, outcome) ==
-    Chk("C14.no-crash", outcome \in {"returned", "truncated", "exhausted"})
+    \* (fault-injection scenarios feed an invalid sample on purpose: there the run must raise, see C10)
+    Chk("C14.no-crash", outcome \in {"returned", "truncated", "exhausted"} \/ cfg.fault = 1)
     \cup (IF outcome # "returned" THEN {}
           ELSE IF cfg.stop = "time" THEN Chk("C14.every-event-before-horizon-executed", MinDateOf(last) >= cfg.T)
           ELSE IF cfg.stop = "deadlock" THEN {}
@@ -960,7 +983,7 @@ StepFails(cfg, pre, post, ob) ==
     \cup F_C08_step(cfg, pre, post) \cup F_C09_step(cfg, pre, post, ob.rt) \cup F_C10_step(cfg, pre, post)
     \cup F_C11_step(cfg, pre, post) \cup F_C13_step(cfg, pre, post) \cup F_C14_step(cfg, pre, post)
     \cup F_C17_step(cfg, pre, post) \cup F_C18_step(cfg, pre, post) \cup F_C20_step(cfg, pre, post)
-    \cup F_C19_step(cfg, pre, post)
+    \cup F_C19_step(cfg, pre, post) \cup F_C10_fault(cfg, post)
 
 \* ob = observer state AFTER the event that produced S
 InvFails(cfg, S, ob) ==
@@ -986,9 +1009,29 @@ RtAfter(cfg, post, rt) ==
         rt[k][n] + Cardinality({a \in IdxOf(post, "route") : post.steps[a].x = k /\ post.steps[a].n = n
                                                                /\ post.steps[a].f # 2})]]
 
-ObsAfter(cfg, post, ob) ==
+\* observer: attachment intervals.  att = <<node, server, since>> of current attachments
+RECURSIVE AttFold(_, _, _, _, _)
+AttFold(pre, post, a, att, acc) ==
+    \* acc = [busy, tot]: attached time of finished attachments, presence time of removed servers, per node
+    IF a > Len(post.steps) THEN [att |-> att, busy |-> acc.busy, tot |-> acc.tot]
+    ELSE LET s == post.steps[a]
+         IN IF s.k = "attach" THEN AttFold(pre, post, a + 1, Append(att, <<s.n, s.s, post.now>>), acc)
+            ELSE IF s.k = "detach" THEN
+                 LET hit == {j \in DOMAIN att : att[j][1] = s.n /\ att[j][2] = s.s}
+                 IN IF hit = {} \/ s.n \notin DOMAIN acc.busy THEN AttFold(pre, post, a + 1, att, acc)
+                    ELSE AttFold(pre, post, a + 1, RemoveAt(att, SetMin(hit)),
+                                 [acc EXCEPT !.busy[s.n] = @ + (post.now - att[SetMin(hit)][3])])
+            ELSE IF s.k = "kill" /\ s.n \in DOMAIN acc.tot /\ s.n \in 1..NN(pre) THEN
+                 LET old == {j \in DOMAIN pre.nodes[s.n].srv : pre.nodes[s.n].srv[j].id = s.s}
+                     start == IF old = {} THEN post.now ELSE pre.nodes[s.n].srv[SetMin(old)].start
+                 IN AttFold(pre, post, a + 1, att, [acc EXCEPT !.tot[s.n] = @ + (post.now - start)])
+            ELSE AttFold(pre, post, a + 1, att, acc)
+
+ObsAfter(cfg, pre, post, ob) ==
     LET st == <<post.trk.a, post.trk.b, post.trk.m>>
+        af == AttFold(pre, post, 1, ob.att, [busy |-> ob.busy, tot |-> ob.tot])
     IN [rt |-> RtAfter(cfg, post, ob.rt), gb |-> GbFold(post.steps, 1, ob.gb),
+        att |-> af.att, busy |-> af.busy, tot |-> af.tot,
         seen |-> IF \E a \in DOMAIN ob.seen : ob.seen[a][1] = st THEN ob.seen ELSE Append(ob.seen, <<st, post.now>>)]
 
 \* Known findings (DESIGN.md section 7): trigger predicates over one observed step.  A trace is tainted
